@@ -416,7 +416,9 @@ def unit_rotation(ctx):
     a, b = ctx.choose("axes", pairs)
     k = ctx.choose("k", [1, 2, 3])
     outside = [i for i in range(ndim) if i not in (a, b)]
-    if ndim < 4:
+    if not thorough:  # open, the turning periodic axis, both plane axes periodic
+        pers = [None, (a,), (a, b) if a < b else (b, a)]
+    elif ndim < 4:
         pers = [None] + [(i,) for i in range(ndim)] + [(a, b) if a < b else (b, a)]
     else:  # 4-D: one plane axis, the other plane axis, one axis outside the plane, both plane axes
         pers = [None, (a,), (b,), (outside[0],), (a, b) if a < b else (b, a)]
@@ -495,7 +497,7 @@ def unit_combination(ctx):
     op = ctx.choose("op", ops)
     vector = op in ("div", "laplace_v", "curl")
     perm = ctx.choose("mapping", list(itertools.permutations(range(ndim)))) if vector else None
-    dimsel = ctx.choose("dims", ["default", "permuted"] if ndim > 1 else ["default"])
+    dimsel = ctx.choose("dims", ["default", "permuted"] if ndim > 1 and thorough else ["default"])
     dims = _dims(ndim, dimsel)
     n = {1: [5], 2: [4, 3], 3: [4, 3, 2], 4: [3, 2, 2, 2]}[ndim]
     per = ctx.choose("periodic", [None, (ndim - 1,)])
